@@ -60,15 +60,16 @@ type wireCluster struct {
 	stallGate chan struct{}
 	stalled   chan struct{}
 	stallDone chan struct{}
+	prefix    byte   // first letter of the broker host names ("b1", "b2", …; a second cluster uses another letter)
 	prodMax   int16  // > 0: the brokers advertise Produce up to this version only (old brokers: v3 / v4)
 	stallRest string // what happened to the rest of the stalled request: "eof" (the client had given up) / "delivered"
 }
 
-func newWireCluster(f *fakeRT, nbrokers int, nparts map[string]int, moves []leaderMove) *wireCluster {
+func newWireCluster(f *fakeRT, nbrokers int, nparts map[string]int, moves []leaderMove, prefix byte) *wireCluster {
 	fc := fakecluster.New()
 	for i := 1; i <= nbrokers; i++ {
 		b := fc.AddBroker(int32(i))
-		b.Host, b.Port = "b"+strconv.Itoa(i), 9092
+		b.Host, b.Port = string(prefix)+strconv.Itoa(i), 9092
 	}
 	fc.Controller = 1
 	k := 0
@@ -81,14 +82,14 @@ func newWireCluster(f *fakeRT, nbrokers int, nparts map[string]int, moves []lead
 		}
 		fc.Topics[t] = tp
 	}
-	return &wireCluster{fc: fc, f: f, moves: moves, stallGate: make(chan struct{}), stalled: make(chan struct{}), stallDone: make(chan struct{})}
+	return &wireCluster{fc: fc, f: f, moves: moves, prefix: prefix, stallGate: make(chan struct{}), stalled: make(chan struct{}), stallDone: make(chan struct{})}
 }
 
-func (w *wireCluster) bootAddr() net.Addr { return kafka.TCP("b1:9092") }
+func (w *wireCluster) bootAddr() net.Addr { return kafka.TCP(string(w.prefix) + "1:9092") }
 
 func (w *wireCluster) Dial(ctx context.Context, network, addr string) (net.Conn, error) {
 	host, _, err := net.SplitHostPort(addr)
-	if err != nil || len(host) < 2 || host[0] != 'b' {
+	if err != nil || len(host) < 2 || host[0] != w.prefix {
 		return nil, fmt.Errorf("wire cluster: nothing listens on %s", addr)
 	}
 	id, err := strconv.Atoi(host[1:])
